@@ -227,13 +227,27 @@ def make_exc_info(name, marker):
         return sys.exc_info()
 
 
-def outcome_call(result, test, op):
+def outcome_call(result, test, op, shared=None):
     """Perform one outcome call described by ``op`` on ``result``.  Returns a dict describing
-    what was supplied (for oracles)."""
+    what was supplied (for oracles).
+
+    ``shared`` (a dict owned by the caller, one per history) makes the reporter behave like code that keeps one
+    details dict per distinct set of attachments and hands the *same object* to several outcome calls.  The
+    description returned always holds a private copy taken before the call, so whatever the code under test does
+    to the dict it was given cannot rewrite the oracle's expectation - but it does reach the next call."""
     from testtools.content import text_content
     kind, p = op["kind"], op["payload"]
     m = getattr(result, METHOD[kind])
     info = {"kind": kind, "details": None, "err": None, "reason": None}
+    _plain_make = make_details
+
+    def make_details_(dspec):
+        if shared is None:
+            return _plain_make(dspec)
+        key = repr(sorted(dspec.items()))
+        if key not in shared:
+            shared[key] = _plain_make(dspec)
+        return shared[key]
     if kind == "skip":
         if p["form"] == "reason":
             info["reason"] = p["reason"]
@@ -242,23 +256,27 @@ def outcome_call(result, test, op):
             else:
                 m(test, p["reason"])
         elif p["form"] == "reason+details":
-            d = make_details(p["details"])
+            d = make_details_(p["details"])
             info["reason"] = p["reason"]
-            info["details"] = d
-            m(test, p["reason"], details=dict(d))
+            info["details"] = dict(d)
+            info["details_live"] = d
+            m(test, p["reason"], details=d)
         else:
-            d = make_details(p["details"])
+            d = make_details_(p["details"])
             if p["form"] == "details+reasondetail":
+                d = dict(d)
                 d["reason"] = text_content(p["reason"])
                 info["reason"] = p["reason"]
-            info["details"] = d
-            m(test, details=dict(d))
+            info["details"] = dict(d)
+            info["details_live"] = d
+            m(test, details=d)
     elif p["form"] == "none":
         m(test)
     elif p["form"] == "details":
-        d = make_details(p["details"])
-        info["details"] = d
-        m(test, details=dict(d))
+        d = make_details_(p["details"])
+        info["details"] = dict(d)
+        info["details_live"] = d
+        m(test, details=d)
     else:
         ei = make_exc_info(p["exc"], op["marker"])
         info["err"] = ei
